@@ -47,6 +47,8 @@ func runC01(c *Ctx, r *Report) {
 	importRules(c, r, "C05", []string{"R-C05.1"}, "R-C01.15")
 	r.Doc("R-C01.16", "a view is taken in one critical section (adopted from C13: a replica restored from a snapshot whose values are newer than its heads exposes other heads and values than the replica it was taken from)")
 	importRules(c, r, "C13", []string{"R-C13.12"}, "R-C01.16", 0)
+	r.Doc("R-C01.18", "every success return of Join after its lock is preceded on all paths by the candidate walk over the other log (no shortcut decides that there is nothing to merge)")
+	mergeWalksBeforeSuccess(c, r, "R-C01.18")
 	r.Doc("R-C01.17", "which entries a merge takes over is decided by what the destination holds and by the log id only: no test on the entry's content controls the candidate walk (an entry appendable by its writer and skipped by the merge keeps the replicas apart for good)")
 	candidatesChosenByIdentityOnly(c, r, "R-C01.17")
 	r.Doc("R-C01.10", "entries are filed in the entry index under their own hash and in the predecessor index under their own predecessor links (a link index fed from references, or from another list, makes head filtering depend on merge order)")
@@ -531,4 +533,45 @@ func removalWhileIterating(c *Ctx, r *Report, rule string) {
 		r.Hold(rule, r.Key(rule, nil, "no-removal-while-iterating", ""), token.NoPos, true, fmt.Sprintf("%d index/range loops over slices in the merge closure, none shortens the slice it walks", nloops))
 	}
 	r.Floor(rule, "index/range loops over slices in the merge closure", nloops, 1) // an expected-zero rule: the floor only guards against an empty closure
+}
+
+// mergeWalksBeforeSuccess (R-C01.18): every success return of Join reached after its lock is taken is preceded on every
+// path by the candidate walk (the call of `difference`): whether there is something to merge is decided by walking
+// the other log's history from all its heads, never by a shortcut over sizes or a single head.
+func mergeWalksBeforeSuccess(c *Ctx, r *Report, rule string) {
+	p := c.P
+	join := p.Func("", "IPFSLog", "Join") // as declared: the inlining views splice the walk's body in
+	diff := p.FuncObj("", "", "difference")
+	jf := &Flow{P: p, Fn: join, Entry: Facts{}}
+	jf.Node = func(n ast.Node, f Facts) {
+		walkNoLit(n, func(nd ast.Node) bool {
+			if call, ok := nd.(*ast.CallExpr); ok {
+				if cf := p.Callee(join, call); cf != nil {
+					if cf.Pkg() != nil && cf.Pkg().Path() == "sync" && cf.Name() == "Lock" {
+						if _, isDefer := p.parent[call].(*ast.DeferStmt); !isDefer {
+							f["locked"] = true
+						}
+					}
+					if cf == diff {
+						f["walked"] = true
+					}
+				}
+			}
+			return true
+		})
+	}
+	jf.Run()
+	nsr := 0
+	jf.Exits(func(_ *cfgBlk, ret *ast.ReturnStmt, at Facts) {
+		if ret == nil || !at["locked"] {
+			return
+		}
+		if isNil, hasErr := errResultIsNil(p, join, ret); hasErr && isNil {
+			nsr++
+			r.Check(at["walked"], rule, r.Key(rule, join, "success-return", ""), ret.Pos(),
+				"every path to this success return has walked the other log's history for candidates",
+				"Join can return success after taking its lock without having walked the other log for candidates: a shortcut (sizes compared, one head already held) skips the branches under the other heads, so the result depends on which replica merged first and replicas that merged the same entries diverge")
+		}
+	})
+	r.Floor(rule, "success returns of Join after the lock", nsr, 1)
 }
